@@ -1,13 +1,13 @@
 (* C17 -- supergate decomposition.  Statements only; proofs in Proofs/SupergatesProofs.v.
    L is the fan-in-limited circuit limit_fanin(c, 2) the code works on (recorded by the harness; C05 is about it). *)
 From stdpp Require Import strings gmap sets.
-From CG Require Import Base.Cases Base.Oracle Model.Supergates Proofs.SupergatesProofs Proofs.SupergatesDom.
+From CG Require Import Base.Cases Base.Oracle Model.Supergates Proofs.SupergatesProofs Proofs.SupergatesDom Proofs.SupergatesCoverFull.
 Open Scope string_scope.
 
-(* The property as a statement about the model (DESIGN.md appendix C).  NOT proved: that in the dominator-tree
-   construction every gate keeps its whole fan-in, that the minimal cover loses no gate, and that supergate inputs
-   have disjoint cones (the dominator-theoretic argument).  Proved parts: C17_construction_partial, C17_model_order_partial;
-   per run the clauses are decided on the implementation's output by the verified checkers (C17_checkers_sound). *)
+(* The property as a statement about the model (DESIGN.md appendix C) under the bare hypotheses of the design sketch.
+   PROVED below as C17_model_correct under wf_lim (closed, acyclic by a rank function, <= 2 operands, constants and inputs
+   undriven, gates driven -- what lint-cleanness and limit_fanin(.., 2) give): shape, independence, cover (any number of
+   outputs) and the order of the model's list.  The implementation's own list order is judged per run by check_topo. *)
 Definition wf2 (L : circuit) : Prop :=
   closed L ∧ (∀ n i, L !! n = Some i → size (n_fi i) ≤ 2 ∧ is_bb (n_ty i) = false) ∧ ¬ has_cycle L.
 Definition C17_full : Prop := ∀ L sgs, wf2 L → supergates L = Ok sgs → sg_spec L sgs.
@@ -108,8 +108,20 @@ Proof.
   exact (all_supergates_cover L rank Hcl Hrank (λ n i Hi, proj1 (Hb n i Hi)) (λ n i Hi, proj1 (proj2 (proj2 (Hb n i Hi)))) all).
 Qed.
 Print Assumptions C17_cover_prefilter_partial.
-Definition C17_cover_full : Prop := ∀ L sgs, wf_lim L → supergates L = Ok sgs →
+(* ---- the cover clause, any number of outputs: the minimal-cover filter never drops the last supergate holding a gate.
+   Cross-cone lemma (Proofs/SupergatesCross.v): if the root r of a supergate s (grown in cone A) is a gate of a supergate t
+   (grown in cone B), every gate of s is a gate of t -- inside the region r dominates in A, dominance in B implies dominance
+   in A, so a member of s with two tree children in B has two in A and would be an input of s.  Then: among the supergates
+   holding n take one with the most gates; were it dropped, its root would be a gate of another supergate with the same
+   gate set, hence (the gates fix the node set) the same node set, which de-duplication excludes. ---- *)
+Theorem C17_cover_full : ∀ L sgs, wf_lim L → supergates L = Ok sgs →
   ∀ n o, o ∈ outputs L → reach L n o → n ∉ inputs L → ∃ sg, sg ∈ sgs ∧ n ∈ gates (c_g sg).
+Proof.
+  intros L sgs (Hcl & [rank Hrank] & Hb).
+  exact (supergates_cover_full L rank Hcl Hrank (λ n i Hi, proj1 (Hb n i Hi)) (λ n i Hi, proj1 (proj2 (Hb n i Hi)))
+           (λ n i Hi, proj2 (proj2 (proj2 (Hb n i Hi)))) (λ n i Hi, proj1 (proj2 (proj2 (Hb n i Hi)))) sgs).
+Qed.
+Print Assumptions C17_cover_full.
 
 (* ---- the independence clause, any number of outputs: an input of a supergate is a source, or a frontier node with two tree
    children; such a node strictly dominates everything upstream of it and is a strict dominator of no member of the grown
@@ -140,6 +152,18 @@ Proof.
   - exact (C17_model_order_partial L sgs H).
 Qed.
 Print Assumptions C17_single_output.
+
+(* ---- the whole property for the mirrored model, any number of outputs: whenever the model returns a list, the list
+   satisfies all four clauses (that it does not always return one is finding C17-F2, C17_total_refuted) ---- *)
+Theorem C17_model_correct : ∀ L sgs, wf_lim L → supergates L = Ok sgs → sg_spec L sgs.
+Proof.
+  intros L sgs Hwf H. split; [|split].
+  - pose proof (C17_shape L sgs Hwf H) as H1. pose proof (C17_independence L sgs Hwf H) as H2.
+    rewrite Forall_forall in H1, H2 |- *. intros sg Hsg. destruct (H1 sg Hsg) as [Ha Hb]. split; [done|]. split; [done|]. exact (H2 sg Hsg).
+  - exact (C17_cover_full L sgs Hwf H).
+  - exact (C17_model_order_partial L sgs H).
+Qed.
+Print Assumptions C17_model_correct.
 
 (* ---- witnesses ---- *)
 (* x = and(a,b), y = or(c,d), g = and(x,y), o1 = not(g), o2 = buf(g): five supergates, the shared one found in both cones *)
